@@ -1807,7 +1807,7 @@ fn main() {
         let other_fail = out.panic.is_some() || !out.d_fail.is_empty() || (!out.invalid.is_empty() && !still);
         if status_known && still {
             let n = cx.known_counts.get(id).copied().unwrap_or(0);
-            cx.rep.known(id, &format!("witness `{}` still fails ({} cases of this run attributed to it by its cause rule)", w, n));
+            cx.rep.known(id, &format!("witness `{}` still fails ({} result elements of this run attributed to it by its cause rule)", w, n));
         } else if status_known && !still && !other_fail {
             cx.rep.note(format!("{}: the witness no longer fails — the entry can become status=fixed", id));
         } else if !status_known && (still || other_fail) {
